@@ -14,20 +14,20 @@ static const char *op_names[OP_N] = {"online", "offline", "read", "qs", "update"
 static const char *cfg_names[3] = {"M=SimMutex", "M=ticket_spinlock", "M=simple_spinlock"};
 static const uint64_t RECLAIMED = 0xDEADDEADDEADDEADull;
 
-static int P_cb, P_rereg, P_deferred, P_join_mid, P_leave_mid, P_multi_pending, P_barrier_ret, P_deferred_stop, P_reads, P_held_reads, P_offline_run, P_closing_rounds, P_sync_reclaim, P_skipped;
+static int P_cb, P_rereg, P_deferred, P_join_mid, P_leave_mid, P_multi_pending, P_barrier_ret, P_deferred_stop, P_reads, P_held_reads, P_offline_run, P_closing_rounds, P_sync_reclaim, P_skipped, P_recycled, P_nested_run, P_update_in_cb;
 
 struct Interval { uint64_t begin, end; VC clk; };
 struct Agent {
 	void *mem = nullptr; bool constructed = false;
 	int st = 0; // 0 offline, 1 online (stable), 2 in online(), 3 in offline()
 	std::vector<Interval> ivs;
-	std::vector<int> held;
+	std::vector<std::pair<int, uint64_t>> held; // (object, payload value seen when the pointer was obtained)
 	bool in_run = false;
 	int rounds = 0; bool closing = false;
 };
 struct Obj {
 	char *mem; int state; // 0 live/published, 1 unlinked+registered, 2 reclaimed (callback started)
-	int registrar = 0; uint64_t reg_stamp = 0; uint32_t snapshot = 0; int rereg = 0; int cb_count = 0; bool forbidden = false;
+	int registrar = 0; uint64_t reg_stamp = 0; uint32_t snapshot = 0; int rereg = 0; int cb_count = 0; bool forbidden = false; bool cb_done = false; int flavour = 0; VC chan;
 };
 
 struct QsEngine;
@@ -49,7 +49,7 @@ struct QsEngine : Engine {
 		P_cb = probe_id("callbacks_run"); P_rereg = probe_id("callback_reregistered_node"); P_deferred = probe_id("deferred_period_seen");
 		P_join_mid = probe_id("agent_joined_while_barrier_pending"); P_leave_mid = probe_id("agent_left_while_barrier_pending"); P_multi_pending = probe_id("two_or_more_barriers_pending");
 		P_barrier_ret = probe_id("quiescent_barrier_returned"); P_deferred_stop = probe_id("deferred_offline_stop"); P_reads = probe_id("reads"); P_held_reads = probe_id("held_pointer_revalidated");
-		P_offline_run = probe_id("run_while_offline"); P_closing_rounds = probe_id("closing_rounds"); P_sync_reclaim = probe_id("reclaim_after_quiescent_barrier"); P_skipped = probe_id("ops_skipped_precondition");
+		P_offline_run = probe_id("run_while_offline"); P_closing_rounds = probe_id("closing_rounds"); P_sync_reclaim = probe_id("reclaim_after_quiescent_barrier"); P_skipped = probe_id("ops_skipped_precondition"); P_recycled = probe_id("reclaimed_object_recycled_and_registered_again"); P_nested_run = probe_id("run_called_from_inside_a_callback"); P_update_in_cb = probe_id("await_barrier_for_another_node_from_inside_a_callback");
 	}
 	const char *name() override { return "simqs"; }
 	const char *op_name(int k) override { return k >= 0 && k < OP_N ? op_names[k] : "?"; }
@@ -81,7 +81,7 @@ struct QsEngine : Engine {
 				int r = (int)rng.below(100);
 				if (r < 25) { q.kind = OP_READ; q.a[0] = rng.chance(1, 2); }
 				else if (r < 50) q.kind = OP_QS;
-				else if (r < 65) { q.kind = OP_UPDATE; q.a[0] = rng.chance(1, 6); }
+				else if (r < 65) { q.kind = OP_UPDATE; q.a[0] = rng.chance(1, 6); q.a[1] = rng.chance(1, 3); q.a[2] = rng.chance(1, 5) ? 1 + (int)rng.below(2) : 0; }
 				else if (r < 80) q.kind = OP_RUN;
 				else if (r < 85) { q.kind = OP_BARRIER; q.a[0] = rng.chance(1, 2); }
 				else if (r < 92) q.kind = OP_OFFLINE;
@@ -93,8 +93,21 @@ struct QsEngine : Engine {
 		pick_strategy(rng, p, true);
 	}
 
-	int new_obj() {
-		Obj o; o.mem = (char *)obj_alloc(16 + ((node_sz + 15) & ~15), 64); o.state = 0;
+	uint64_t obj_gen = 0;
+	int new_obj(bool recycle = false) {
+		if (recycle) {
+			// type-stable memory: an object whose callback has run is free for reuse; its qs_node is registered again later
+			for (size_t i = 0; i < objs.size(); i++) if (objs[i].state == 2 && objs[i].cb_done) {
+				Obj &o = objs[i];
+				hb_acquire(o.chan);
+				o.state = 0; o.forbidden = false; o.cb_done = false; o.registrar = 0; o.rereg = 0;
+				uint64_t v = 0x100000 + (++obj_gen << 8) + i;
+				user_write(o.mem, 8); memcpy(o.mem, &v, 8);
+				probe(P_recycled);
+				return (int)i;
+			}
+		}
+		Obj o; o.mem = (char *)obj_alloc(16 + ((node_sz + 15) & ~15), 64); o.state = 0; o.chan.clear();
 		uint64_t v = 0x1000 + objs.size();
 		user_write(o.mem, 8); memcpy(o.mem, &v, 8);
 		sut_node_construct(o.mem + 16, cb_trampoline);
@@ -103,7 +116,7 @@ struct QsEngine : Engine {
 	}
 
 	void setup(const Plan &p) override {
-		mt = p.cfg; nagents = p.ntasks; evseq = 0; pending = 0; n_closing = 0;
+		mt = p.cfg; nagents = p.ntasks; evseq = 0; pending = 0; n_closing = 0; cb_depth = 0; obj_gen = 0;
 		objs.clear(); node_sz = sut_node_size();
 		for (int t = 0; t < MAXT; t++) ag[t] = Agent();
 		dom = obj_alloc(sut_domain_size(mt), 64);
@@ -159,15 +172,32 @@ struct QsEngine : Engine {
 			return;
 		}
 		user_write(o.mem, 8); memcpy(o.mem, &RECLAIMED, 8);
-		pending--;
+		hb_release(objs[idx].chan); // the reclaimer hands the memory to whoever recycles it (free-list synchronisation of the user)
+		int flavour = objs[idx].flavour; objs[idx].flavour = 0;
+		if (flavour == 1 && cb_depth < 2) { // a callback may call run() itself
+			probe(P_nested_run); cb_depth++; sut_run(mt, ag[me].mem); cb_depth--;
+		} else if (flavour == 2 && ag[me].st == 1 && cb_depth < 2) { // ... or unlink and register ANOTHER object
+			probe(P_update_in_cb);
+			int n = new_obj(false);
+			int old = (int)user_atomic_exchange(cell, 8, (uint64_t)n + 1) - 1;
+			Obj &x = objs[old];
+			x.state = 1; x.registrar = me; x.rereg = 0; pending++;
+			x.snapshot = snapshot_online(); x.reg_stamp = ++evseq;
+			cb_depth++; sut_await(mt, ag[me].mem, x.mem + 16); cb_depth--;
+		}
+		objs[idx].cb_done = true;
+		pending--; // last: other agents leave the closing phase as soon as nothing is pending
 	}
+	int cb_depth = 0;
 
 	void revalidate(int me) {
-		for (int h : ag[me].held) {
+		for (auto &hp : ag[me].held) {
+			int h = hp.first;
 			probe(P_held_reads);
 			user_read(objs[h].mem, 8);
 			uint64_t v; memcpy(&v, objs[h].mem, 8);
 			if (v == RECLAIMED) violation("reader_saw_reclaimed", "agent %d still holds object #%d (obtained since its last quiescent state) but it was already reclaimed", me, h);
+			if (v != hp.second) violation("reader_saw_reclaimed", "agent %d still holds object #%d (obtained since its last quiescent state) but it was reclaimed and recycled meanwhile (payload %llx -> %llx)", me, h, (unsigned long long)hp.second, (unsigned long long)v);
 		}
 		ag[me].held.clear();
 	}
@@ -215,7 +245,7 @@ struct QsEngine : Engine {
 			user_read(objs[idx].mem, 8);
 			uint64_t pv; memcpy(&pv, objs[idx].mem, 8);
 			if (pv == RECLAIMED) violation("reader_saw_reclaimed", "agent %d read the current object #%d and found it reclaimed", me, idx);
-			if (op.a[0]) a.held.push_back(idx);
+			if (op.a[0]) a.held.push_back({idx, pv});
 			break; }
 		case OP_QS:
 			if (a.st != 1) { probe(P_skipped); return; }
@@ -223,10 +253,10 @@ struct QsEngine : Engine {
 			break;
 		case OP_UPDATE: {
 			if (a.st != 1) { probe(P_skipped); return; }
-			int n = new_obj();
+			int n = new_obj(op.a[1] != 0);
 			int old = (int)user_atomic_exchange(cell, 8, (uint64_t)n + 1) - 1;
 			Obj &o = objs[old];
-			o.state = 1; o.registrar = me; o.rereg = op.a[0] ? 1 : 0;
+			o.state = 1; o.registrar = me; o.rereg = op.a[0] ? 1 : 0; o.flavour = o.rereg ? 0 : (int)op.a[2];
 			if (pending >= 1) probe(P_multi_pending);
 			pending++;
 			o.snapshot = snapshot_online(); o.reg_stamp = ++evseq;
@@ -240,7 +270,7 @@ struct QsEngine : Engine {
 			if (a.st != 1) { probe(P_skipped); return; }
 			revalidate(me);
 			int old = -1;
-			if (op.a[0]) { int n = new_obj(); old = (int)user_atomic_exchange(cell, 8, (uint64_t)n + 1) - 1; objs[old].state = 1; objs[old].registrar = -1; pending++; }
+			if (op.a[0]) { int n = new_obj(false); old = (int)user_atomic_exchange(cell, 8, (uint64_t)n + 1) - 1; objs[old].state = 1; objs[old].registrar = -1; pending++; }
 			uint32_t snap = snapshot_online();
 			open_iv(me);
 			uint64_t reg = ag[me].ivs.back().begin;
@@ -248,7 +278,7 @@ struct QsEngine : Engine {
 			close_iv(me);
 			probe(P_barrier_ret);
 			check_grace("quiescent_barrier() returned", snap, reg, me);
-			if (old >= 0) { probe(P_sync_reclaim); objs[old].state = 2; user_write(objs[old].mem, 8); memcpy(objs[old].mem, &RECLAIMED, 8); pending--; }
+			if (old >= 0) { probe(P_sync_reclaim); objs[old].state = 2; user_write(objs[old].mem, 8); memcpy(objs[old].mem, &RECLAIMED, 8); hb_release(objs[old].chan); objs[old].cb_done = true; pending--; }
 			break; }
 		}
 	}
@@ -297,6 +327,8 @@ struct QsEngine : Engine {
 	std::vector<Op> simplify(const Op &o) override {
 		std::vector<Op> v;
 		if ((o.kind == OP_READ || o.kind == OP_UPDATE || o.kind == OP_BARRIER) && o.a[0]) { Op c = o; c.a[0] = 0; v.push_back(c); }
+		if (o.kind == OP_UPDATE && o.a[1]) { Op c = o; c.a[1] = 0; v.push_back(c); }
+		if (o.kind == OP_UPDATE && o.a[2]) { Op c = o; c.a[2] = 0; v.push_back(c); }
 		return v;
 	}
 };
